@@ -4,6 +4,8 @@
 #include <tao/pegtl/contrib/input_with_depth.hpp>
 #include <tao/pegtl/contrib/limit_bytes.hpp>
 #include <tao/pegtl/contrib/limit_depth.hpp>
+#include <tao/pegtl/cstream_input.hpp>
+#include <tao/pegtl/istream_input.hpp>
 
 namespace vu
 {
@@ -51,9 +53,12 @@ namespace vu
       return n;
    }
 
+   template< typename... T > constexpr std::size_t touch() { return ( sizeof( T ) + ... + 0 ); }   // forces complete types; cfgx records their facts
+
    inline std::size_t all_inputs( In& in, InLazy& lz, InBuf& bin, const In::action_t& ai, const InLazy::action_t& lai, const InBuf::action_t& bai )
    {
       std::size_t n = use_action_input( ai ) + use_action_input( lai );
+      touch< string_input<>, read_input<>, mmap_input<>, file_input<>, argv_input<>, istream_input<>, cstream_input<>, memory_input<>, InLazy, InBuf >();
       n += bai.size() + std::size_t( bai.end() - bai.begin() );
       n += use_memory_input( in ) + use_memory_input( lz );
       n += in.line() + in.column();
